@@ -398,3 +398,30 @@ def ddl(prog: Program) -> list[Table]:
         uniq.append(t)
     prog._ddl_cache = uniq
     return uniq
+
+
+def rule_timestamp_normalised(ctx, rep, rid: str) -> None:
+    """locked_until / deliver_at hold text written in two formats (Python isoformat() 'YYYY-MM-DDTHH:MM:SS.ffffff+00:00' by push /
+    poll / extend_lock / reschedule, SQLite 'YYYY-MM-DD HH:MM:SS' by replay_dlq). Every ordering comparison on them in the queue
+    code must therefore go through datetime(col) on the left and a datetime(...) value on the right. A raw `locked_until <
+    datetime('now','utc')` compares 'T' against ' ': a lapsed lock of today never looks lapsed, the message is never redelivered."""
+    prog = ctx.prog
+    n = 0
+    for s in statements(prog):
+        if not is_sqlite(s) or not (s.func.module.name.startswith("stabilize.queue") or s.func.module.name == "stabilize.persistence.sqlite.transaction"):
+            continue
+        if "monitor" in s.func.module.name:
+            continue
+        for w in s.where:
+            for part in re.split(r"\bor\b|\band\b", w.strip("()")):
+                m = re.search(r"(datetime\()?\s*(locked_until|deliver_at)\s*\)?\s*(<=|>=|<|>)\s*(.+)$", part.strip().strip("()"))
+                if not m:
+                    continue
+                n += 1
+                wrapped = bool(m.group(1))
+                rhs = m.group(4).strip()
+                ok = wrapped and rhs.startswith("datetime(")
+                rep.check(ok, rid, f"{s.func.qualname}: {m.group(2)} compared as a time, not as text", f"`{part.strip()}`" + ("" if ok else
+                          f": {m.group(2)} is written by Python as an ISO string ('...T...+00:00'); compared raw with a SQLite datetime ('... ...') the 'T' sorts above the blank, so a lock that lapsed today never compares as lapsed - "
+                          "the in-flight message of a dead worker is never redelivered (and it still counts as pending, so recovery does not help)"), s.file, s.line, disc=f"ts-normalised:{s.func.qualname}:{s.kind}:{m.group(2)}")
+    rep.floor("time comparisons on locked_until / deliver_at in the queue code", n, 2)
